@@ -147,7 +147,7 @@ def main(ctx):
     ctx.coverage["distinct_nontrivial"] = int(ctx.counters["nontrivial"])
     for n in ("ref:accept", "ref:reject", "ref:either", "server_open", "server_rejected",
               "client_open", "client_rejected", "token_strings", "url_cases", "segment_execs",
-              "interop_pairs", "timeout_drop_checked"):
+              "interop_pairs"):
         ctx.require(n)
 
 
